@@ -451,7 +451,43 @@ func helperSession(tag byte, level int, n int) func(l logger) {
 	}
 }
 
-// yDstBuf is a destination that yields to the scheduler before every write.
+// textSession: a connection on which text reads go wrong (invalid UTF-8, a stream cut inside a
+// multi-byte character, a close frame cutting a fragmented text short) between text reads that are
+// fine, through the read helpers that check UTF-8: every read is judged on its own bytes.
+func textSession(tag byte) func(l logger) {
+	return func(l logger) {
+		good := "caf\u00e9 \u20ac " + string('a'+tag%26)
+		frames := [][]byte{
+			mkFrame(1, true, true, []byte(good)),
+			mkFrame(1, true, true, []byte("bad \xff\xfe bytes")),
+			mkFrame(1, true, true, []byte(good+" again")),
+			append(mkFrame(1, false, true, []byte("cut inside \xe2\x82")), mkFrame(8, true, true, ws.NewCloseFrameBody(1000, ""))...),
+			mkFrame(1, true, true, []byte(good+" once more")),
+			mkFrame(1, true, true, []byte("truncated character \xf0\x9f\x98")),
+			mkFrame(1, true, true, []byte(good+" finally")),
+		}
+		for i, f := range frames {
+			rw := env.RW{Reader: ySrc{bytes.NewReader(f), l}, Writer: newDst(l)}
+			switch i % 3 {
+			case 0:
+				p, op, err := wsutil.ReadClientData(rw)
+				l.Logf("text #%d ReadClientData op=%x payload=%q err=%v", i, byte(op), p, err)
+			case 1:
+				p, err := wsutil.ReadClientText(rw)
+				l.Logf("text #%d ReadClientText payload=%q err=%v", i, p, err)
+			default:
+				m, err := wsutil.ReadClientMessage(rw.Reader, nil)
+				var last string
+				if len(m) > 0 {
+					last = string(m[len(m)-1].Payload)
+				}
+				l.Logf("text #%d ReadClientMessage n=%d last=%q err=%v", i, len(m), last, err)
+			}
+		}
+	}
+}
+
+// yDstBuf is a destination that yields to the scheduler before every write.// yDstBuf is a destination that yields to the scheduler before every write.
 type yDstBuf struct {
 	b *bytes.Buffer
 	l logger
@@ -482,6 +518,8 @@ func sessions() map[string]session {
 	add("S3L", utilSession(3, 5000))
 	add("S5", helperSession(4, flate.BestSpeed, 400))
 	add("S5b", helperSession(5, flate.HuffmanOnly, 400))
+	add("S6", textSession(6))
+	add("S6b", textSession(7))
 	return m
 }
 
@@ -708,7 +746,7 @@ func main() {
 			t.Outcome("deterministic")
 			t.Note("each session alone: same log on the non-recycling pool twice and on the poisoning LIFO pool")
 		})
-		mixes2 := [][]string{{"S2s", "S2t"}, {"S4a", "S4b"}, {"S1", "S2"}, {"S1", "S1b"}, {"S2", "S2b"}, {"S1", "S3"}, {"S2", "S3"}, {"S3", "S3b"}, {"S1L", "S2L"}, {"S1L", "S1"}, {"S3L", "S2"}, {"S3L", "S3"}, {"S3", "S5"}, {"S5", "S5b"}}
+		mixes2 := [][]string{{"S2s", "S2t"}, {"S4a", "S4b"}, {"S1", "S2"}, {"S1", "S1b"}, {"S2", "S2b"}, {"S1", "S3"}, {"S2", "S3"}, {"S3", "S3b"}, {"S1L", "S2L"}, {"S1L", "S1"}, {"S3L", "S2"}, {"S3L", "S3"}, {"S3", "S5"}, {"S5", "S5b"}, {"S6", "S6b"}, {"S1", "S6"}}
 		mixes3 := [][]string{{"S1", "S2", "S3"}, {"S1", "S1b", "S2"}, {"S2", "S2b", "S3"}}
 		r.Part("E1-two-sessions-preemption-bounded", func(t *explore.T) {
 			b := t.Pick(2, 3)
